@@ -32,6 +32,9 @@ META = {
     "assumptions": ["entry order is the one thing the format leaves free: the order found in the file is accepted",
                     "with no entries the dimension byte is 0 (the saver cannot know the arity)"],
 }
+META["rule"] += "; round 7: the same row ids in non-native byte order ('>u4' arrays): refused, or written as the documented little-endian bytes"
+for _t in META["require"]:
+    META["require"][_t] = list(META["require"][_t]) + ['class:byte_swapped_row_id_arrays']
 
 
 def shards(tier):
